@@ -393,3 +393,49 @@ fn e13_stale_handle_below_a_deleted_bucket() {
     r.expect("page accounted twice after a delete through a handle below a deleted bucket");
     assert!(refused, "a handle below a deleted bucket was accepted instead of being refused as a deleted bucket");
 }
+
+// E14 (C02, KNOWN FINDING): two consecutive power losses, each tearing a header write at 8-byte word granularity.  The commit
+// redone after the first recovery gets the same transaction id and slot as the interrupted one; the first tear lands every
+// changed word of the interrupted header except tx_id, the second lands only tx_id: the slot then holds the checksum-valid
+// header of the DEAD commit, whose pages have been reused.
+#[test]
+fn e14_two_power_losses_resurrect_a_dead_header() {
+    let ps = 4096usize;
+    let (base, p1, p2) = (tmp("e14-base"), tmp("e14-c1"), tmp("e14-c2"));
+    let open = |p: &std::path::PathBuf| OpenOptions::new().pagesize(4096).num_pages(64).open(p).unwrap();
+    let put = |p: &std::path::PathBuf, from: u32, to: u32| { let db = open(p); try_commit_keys(&db, from, to, 120).unwrap(); };
+    put(&base, 0, 40); put(&base, 20, 60);
+    let img_a = std::fs::read(&base).unwrap();
+    put(&base, 10, 50);
+    let img_b = std::fs::read(&base).unwrap();
+    let hdr_write = |before: &[u8], after: &[u8]| -> (usize, Vec<usize>) {
+        let mut found = None;
+        for slot in 0..2 { let b = slot * ps; let w: Vec<usize> = (0..ps).step_by(8).filter(|o| before[b + o..b + o + 8] != after[b + o..b + o + 8]).collect(); if !w.is_empty() { found = Some((slot, w)); } }
+        found.unwrap()
+    };
+    let torn = |before: &[u8], after: &[u8], slot: usize, words: &[usize], mask: u32| -> Vec<u8> {
+        let mut img = after.to_vec(); let b = slot * ps;
+        img[b..b + ps].copy_from_slice(&before[b..b + ps]);
+        for (i, o) in words.iter().enumerate() { if mask & (1 << i) != 0 { img[b + o..b + o + 8].copy_from_slice(&after[b + o..b + o + 8]); } }
+        img
+    };
+    let (slot1, words1) = hdr_write(&img_a, &img_b);
+    let mut bad = Vec::new();
+    for mask1 in 0..(1u32 << words1.len()) {
+        let c1 = torn(&img_a, &img_b, slot1, &words1, mask1);
+        std::fs::write(&p1, &c1).unwrap();
+        let rec = { let db = open(&p1); db.check().unwrap(); contents(&db) };
+        put(&p1, 900, 901);
+        let after = { let db = open(&p1); contents(&db) };
+        let img_d = std::fs::read(&p1).unwrap();
+        let (slot2, words2) = hdr_write(&c1, &img_d);
+        for mask2 in 0..(1u32 << words2.len()) {
+            std::fs::write(&p2, torn(&c1, &img_d, slot2, &words2, mask2)).unwrap();
+            let pp = p2.clone();
+            let got = std::panic::catch_unwind(move || { let db = OpenOptions::new().pagesize(4096).num_pages(64).open(&pp).unwrap(); db.check().map(|_| contents(&db)) });
+            match got { Ok(Ok(s)) if s == rec || s == after => {}, other => bad.push(format!("masks {:#b}/{:#b}: {:?}", mask1, mask2, other.map(|r| r.map(|s| s.len())))) }
+        }
+    }
+    for p in [&base, &p1, &p2] { let _ = std::fs::remove_file(p); }
+    assert!(bad.is_empty(), "crash images after two power losses that are neither the state before nor after the interrupted commit: {:?}", bad);
+}
